@@ -116,9 +116,33 @@ func c17Fields(codec string, e extCodec) Ev {
 	return Ev{}
 }
 
+// c17Full: a value the application built itself with every field at its largest value (also bits a
+// decode can never produce, e.g. the ~50-bit timestamp NewAbsSendTimeExtension stores)
+func c17Full(codec string) extCodec {
+	switch codec {
+	case "audio":
+		return &rtp.AudioLevelExtension{Level: 255, Voice: true}
+	case "tcc":
+		return &rtp.TransportCCExtension{TransportSequence: 0xFFFF}
+	case "playout":
+		return &rtp.PlayoutDelayExtension{MinDelay: 0xFFFF, MaxDelay: 0xFFFF}
+	case "abssend":
+		return &rtp.AbsSendTimeExtension{Timestamp: ^uint64(0)}
+	case "abscapture":
+		o := int64(-1)
+		return &rtp.AbsCaptureTimeExtension{Timestamp: ^uint64(0), EstimatedCaptureClockOffset: &o}
+	}
+	return c17New(codec)
+}
+
 func c17Decode(codec string, prev, b []byte, usePrev bool) Ev {
 	e := c17New(codec)
-	if usePrev {
+	if usePrev && len(prev)%2 == 1 {
+		e = c17Full(codec) // the receiver is a value the application built, not an earlier decode
+		if len(prev)%4 == 1 {
+			guard(func() { _ = e.Unmarshal(prev) })
+		}
+	} else if usePrev {
 		guard(func() { _ = e.Unmarshal(prev) })
 	}
 	var err error
